@@ -49,6 +49,8 @@ def check_c13(ctx):
                ["C13.fwd_pattern", "C13.extra_storage", "C13.block_opt"])
     cov["planner_entries_scanned"] = scanned
     cov["guided_configurations"] = guided
+    from . import design
+    cov["design_level_generator_model"] = design.gen_twolevel(ctx)
     return viols, cov, ["GW closed form (GWForm.tla), tied to the exhaustive ExecOpt search by C05"]
 
 
